@@ -44,7 +44,7 @@ pub struct Policy {
 
 const FACTUAL: &[Mode] = &[Mode::Observed, Mode::Stated, Mode::Inferred, Mode::Imported];
 
-pub const POLICIES: [Policy; 5] = [
+pub const POLICIES: [Policy; 7] = [
     Policy {
         name: "baseline",
         clause: "",
@@ -89,6 +89,25 @@ pub const POLICIES: [Policy; 5] = [
         modes: &[Mode::Hypothetical, Mode::Stated],
         accept: 700,
         material: 300,
+    },
+    // one override at a time: each alone must change the reported identity
+    Policy {
+        name: "accept-only",
+        clause: " WITH EPISTEMIC {accept: 0.9}",
+        base_id: "kip:policy:baseline",
+        custom: true,
+        modes: FACTUAL,
+        accept: 900,
+        material: 300,
+    },
+    Policy {
+        name: "material-only",
+        clause: " WITH EPISTEMIC {material: 0.1}",
+        base_id: "kip:policy:baseline",
+        custom: true,
+        modes: FACTUAL,
+        accept: 700,
+        material: 100,
     },
 ];
 
